@@ -111,7 +111,9 @@ impl Property for C07 {
         let mut files = Vec::new();
         let mut prev = 0;
         for c in cuts.iter().chain(std::iter::once(&n_lines)) {
-            files.push(gen::join_lines(&lines[prev..*c], true));
+            // now and then a file whose last line has no newline (never an empty last line: that would be no line)
+            let unterminated = rng.chance(1, 6) && lines[prev..*c].last().map(|l| !l.is_empty()).unwrap_or(false);
+            files.push(gen::join_lines(&lines[prev..*c], !unterminated));
             prev = *c;
         }
         let joined: Vec<Vec<u8>> = if query.join.is_some() {
@@ -136,6 +138,8 @@ impl Property for C07 {
             "read_mode": if rng.chance(2, 3) { json!("line") } else { read_mode_to_json(&gen::gen_read_mode(rng)) },
             "follow": query.join.is_none() && !query.aggregate && rng.chance(1, 2),
             "fcuts": fcuts,
+            // follow run: percentage of the content that already exists at start-up (--head)
+            "finit": if rng.chance(1, 3) { json!(*rng.pick(&[100u64, 100, 50, 30, 80])) } else { J::Null },
             "fsteps": steps_to_json(&steps),
             "only_n": J::Null,
             "single": rng.chance(1, 3),
@@ -160,6 +164,7 @@ impl Property for C07 {
         bytes_array_field(case, "files", &mut out);
         bytes_field(case, "joined", &mut out);
         array_field(case, "fcuts", &mut out);
+        set_field(case, "finit", J::Null, &mut out);
         steps_field(case, "fsteps", &mut out);
         set_field(case, "format", json!("text"), &mut out);
         set_field(case, "read_mode", json!("line"), &mut out);
@@ -187,11 +192,12 @@ impl Property for C07 {
         let joined: Option<Vec<u8>> = case.get("joined").and_then(|j| j.as_str()).map(dec);
         let read_mode = read_mode_from_json(case, "read_mode");
         let want_follow = jbool(case, "follow");
-        if files.is_empty() || files.iter().any(|f| !f.is_empty() && f.last() != Some(&b'\n')) || stmt.to_uppercase().contains(" LIMIT ") {
-            out.invalid = Some("files must be newline-terminated and the statement must not carry its own LIMIT".to_owned());
+        if files.is_empty() || stmt.to_uppercase().contains(" LIMIT ") {
+            out.invalid = Some("needs files and a statement that does not carry its own LIMIT".to_owned());
             return out;
         }
-        let all_lines: Vec<Vec<u8>> = files.iter().flat_map(|f| complete_lines(f)).collect();
+        // a file may end without a newline: its last line is a line all the same
+        let all_lines: Vec<Vec<u8>> = files.iter().flat_map(|f| model_lines(f)).collect();
         if all_lines.iter().any(|l| std::str::from_utf8(l).is_err()) {
             out.invalid = Some("content is not UTF-8".to_owned());
             return out;
@@ -388,8 +394,14 @@ impl Property for C07 {
                 let upto = if n == 0 { 0 } else { l_n };
                 let content = gen::join_lines(&all_lines[..upto], true);
                 let mut f = WorldSpec::new(&defs, &lstmt, Mode::FollowExec { head: true });
-                f.files.push((FOLLOW_PATH.to_owned(), Vec::new()));
-                f.appends = gen::cut_chunks(&content, &jusizes(case, "fcuts"));
+                // part of the content already exists when following starts with --head (possibly all of it)
+                let init_cut = match case.get("finit").and_then(|x| x.as_u64()) {
+                    Some(pct) => (content.len() as u64 * pct.min(100) / 100) as usize,
+                    None => 0,
+                };
+                f.files.push((FOLLOW_PATH.to_owned(), content[..init_cut].to_vec()));
+                f.appends = gen::cut_chunks(&content[init_cut..], &jusizes(case, "fcuts"));
+                out.probe("follow_limit_reached_in_preexisting_content", (init_cut == content.len() && n >= 1 && n <= rows) as u64);
                 f.steps = steps_from_json(case, "fsteps");
                 f.read_mode = read_mode.clone();
                 f.end_after_idle = Some(64);
@@ -437,6 +449,7 @@ impl Property for C07 {
         out.probe("large_more_than_1024_rows_or_groups", (rows > 1024) as u64);
         out.probe("large_more_than_16_rows", (rows > 16) as u64);
         out.probe("inputs_are_pipes", jbool(case, "pipe") as u64);
+        out.probe("file_without_final_newline", files.iter().any(|f| !f.is_empty() && f.last() != Some(&b'\n')) as u64);
         out.probe("filter_on_joined_column", (stmt.contains("WHERE u.") || stmt.contains("WHERE w ")) as u64);
         out
     }
@@ -446,7 +459,7 @@ impl Property for C07 {
 fn file_boundary(files: &[Vec<u8>], l: usize) -> bool {
     let mut acc = 0;
     for (i, f) in files.iter().enumerate() {
-        acc += complete_lines(f).len();
+        acc += model_lines(f).len();
         if acc == l {
             return files[i + 1..].iter().any(|g| !g.is_empty());
         }
